@@ -15,18 +15,18 @@ ID = 'C06'
 def plan(tier):
     if tier == 'quick':
         return [(1, ('plain',), 'RBWN', 2, False), (2, ('plain', 'rainbow'), 'RBWN', 2, False),
-                (3, ('plain',), 'RBW', 2, False), (3, ('rainbow',), 'RWN', 1, True)]
+                (3, ('plain',), 'RBW', 2, False), (3, ('rainbow',), 'RWN', 1, True), (3, ('parsed',), 'RW', 1, False), (3, ('plain',), 'eB', 2, False), (3, ('plain',), 'gmB', 2, False), (3, ('long',), 'RB', 2, False)]
     return [(1, ('plain',), 'RBWNX', 3, False), (2, ('plain', 'rainbow'), 'RBWN', 3, False),
-            (3, ('plain', 'rainbow'), 'RBWN', 2, True), (3, ('plain',), 'RBW', 3, False), (4, ('plain', 'rainbow'), 'RBW', 2, False)]
+            (3, ('plain', 'rainbow'), 'RBWN', 2, True), (3, ('plain',), 'RBW', 3, False), (4, ('plain', 'rainbow'), 'RBW', 2, False), (3, ('plain',), 'egmB', 2, False), (3, ('plain',), 'eB', 3, False), (3, ('long',), 'RBW', 2, False)]
 
 
 def tasks(tier, seed):
-    return explore.std_tasks(plan(tier))
+    return explore.std_tasks(explore.plan_override(ID, plan(tier)))
 
 
 def settings_menu(seed, tier):
     R = explore.roles(seed)
-    m = [[R['R']], [R['B']], [R['W']], [R['N']], [R['X']], [R['R'], R['W']], []]
+    m = [[R['R']], [R['B']], [R['W']], [R['N']], [R['X']], [R['R'], R['W']], [], [R['e']], [R['g']], [R['m']]]
     if tier != 'quick':
         m += [[R['T']], [R['U']], [R['D']], [R['W'], R['N']]]
     return m
@@ -44,16 +44,19 @@ def check_apply(h, pre, S, i, j, top, acc=None):
     cells = [model.codes_of(c) for c in ucells]
     bad = []
     v = build(h)
+    S_spec = S
+    from ..hist import expand_codes
+    S = expand_codes(S_spec)          # the setting texts the (possibly spelled) settings stand for
     try:
-        v.apply_formatting(model_settings(S), i, j, top)
+        v.apply_formatting(model_settings(S_spec), i, j, top)
     except Exception as e:  # noqa
-        return [('apply-raises', 'apply_formatting(%r,%r,%r,%r) raised %s: %s' % (S, i, j, top, type(e).__name__, e))], None
+        return [('apply-raises', 'apply_formatting(%r,%r,%r,%r) raised %s: %s' % (S_spec, i, j, top, type(e).__name__, e))], None
     s, e = norm_range(i, j, L)
     try:
         t2, c2 = model.alpha_codes(v)
     except Exception as ex:  # noqa
         return [('apply-inconsistent', 'after apply_formatting(%r,%r,%r,%r): %s: %s' % (S, i, j, top, type(ex).__name__, ex))], v
-    what = 'apply_formatting(%r,%r,%r,topmost=%r) [range %d:%d]' % (S, i, j, top, s, e)
+    what = 'apply_formatting(%r,%r,%r,topmost=%r) [range %d:%d]' % (S_spec, i, j, top, s, e)
     if t2 != text:
         bad.append(('apply-text', '%s changed the text to %r' % (what, t2)))
         return bad, v
@@ -127,7 +130,7 @@ def check_state(h, v, acc, tier, only=None):
     L = len(text)
     pre = (text, ucells, model.canon_hash(v))
     menu = settings_menu(acc.seed, tier)
-    bounds = list(range(-L - 2, L + 4)) + [None]
+    bounds = explore.probe_bounds(L, 2, 3)
     out = []
     norm_canon = {}
     # every normalised range (including one empty) x every S x topmost: full relational check
